@@ -88,6 +88,9 @@ def run(pid, tier, deadline_s):
             for opt in (("O2",) if tier == "quick" else ("O0", "O1", "O2", "O3", "Os")):
                 for fort in ("0", "2", "3"):
                     tasks.append((f"macroclient:{cc}:{opt}:{fort}", "prod", "C", 0, 1))
+    if pid == "C05":      # the printf_s directive grid, buffer, stream and stdout entry points: every failing call reports exactly once
+        for grp in ("int", "float", "str", "multi"):
+            for sh in range(4): tasks.append(("fmtgrid:" + grp, "prod", "C.UTF-8", sh, 4))
     if pid == "C01":
         for grp in ("int", "float", "str", "multi"):
             for sh in range(4): tasks.append(("fmtgrid:" + grp, "prod", "C.UTF-8", sh, 4))
